@@ -218,6 +218,17 @@ def tlc_validate(module, trace_path, cfg=None, extra_env=None, timeout=1800, hea
     return verdicts, accepted, res
 
 
+def shared_programs(tier, out=None, part=4):
+    """Gen_Shared: functions that share code (exhaustive, 256 programs); the quick tier takes every `part`-th, rotating with the seed"""
+    cases, res = tlc_generate("Gen_Shared")
+    if out is not None:
+        out.add_tlc(res)
+    texts = [c["text"] for c in cases]
+    if tier != "thorough" and part > 1:
+        texts = [t for i, t in enumerate(texts) if i % part == seed() % part]
+    return texts
+
+
 # --------------------------------------------------------------------------- harness
 
 def write_ndjson(path, items):
